@@ -154,6 +154,7 @@ func uiOption(kv KV) middleware.UIOption {
 
 func build(c Config, e *env) (b *built) {
 	b = &built{cfg: c, m: buildModel(c), env: e}
+	c = c.decoded() // values carried as base64 (invalid UTF-8) in their real form
 	var next http.Handler
 	if c.Next && !c.api() {
 		b.next = &recNext{}
@@ -179,7 +180,11 @@ func build(c Config, e *env) (b *built) {
 				panic("harness: unknown spec option " + kv.K)
 			}
 		}
-		b.h = middleware.Spec(c.SpecBase, []byte(c.SpecBytes), next, so...)
+		doc := []byte(c.SpecBytes)
+		if c.SpecNil {
+			doc = nil
+		}
+		b.h = middleware.Spec(c.SpecBase, doc, next, so...)
 	case "redoc":
 		b.h = middleware.Redoc(middleware.RedocOpts{BasePath: o["BasePath"], Path: o["Path"], SpecURL: o["SpecURL"], Title: o["Title"],
 			Template: o["Template"], RedocURL: o["RedocURL"]}, next)
